@@ -55,6 +55,18 @@ func F8[T interface{ M(T) }](a T) { }
 func F9[W interface{ M(W) }](a W) { }
 func H0(a int, b ...string) (bool, error) { panic(0) }
 func H1(a int, b []string) (bool, error) { panic(0) }
+var X0 struct{ x int; y string }
+var X1 struct{ y int; x string }
+var X2 func(int, string)
+var X3 func(string, int)
+var X4 struct{ A int; B string; C bool }
+var X5 struct{ A string; B bool; C int }
+var X6 struct{ C bool; A int; B string }
+var X7 func(a []int, b map[string]bool) (int, error)
+var X8 func(a map[string]bool, b []int) (error, int)
+var X9 interface{ M(int, string); N(string) }
+var X10 interface{ M(string, int); N(string) }
+var X11 struct{ x int; y string }
 `
 
 var c19Basics = []string{"int", "string", "float64", "byte", "rune", "uintptr", "complex128", "bool", "error", "any", "int32", "uint8", "unsafe.Pointer"}
@@ -558,6 +570,30 @@ func runC19(a *runArgs) error {
 			rows[i] = coqList(row)
 		}
 		m.Distinct += classes
+		// groups of pool indices that share a hash value but are not all identical
+		byHash := map[uint32][]int{}
+		for i := range p.types {
+			byHash[hv[i]] = append(byHash[hv[i]], i)
+		}
+		var collide [][]int
+		var hkeys []int
+		for h := range byHash {
+			hkeys = append(hkeys, int(h))
+		}
+		sort.Ints(hkeys)
+		for _, h := range hkeys {
+			g := byHash[uint32(h)]
+			mixed := false
+			for _, j := range g[1:] {
+				if !types.Identical(p.types[g[0]], p.types[j]) {
+					mixed = true
+				}
+			}
+			if mixed {
+				collide = append(collide, g)
+			}
+		}
+		m.Dist["collision-buckets"] += len(collide)
 		// histories
 		hists := []string{}
 		seenH := map[string]bool{}
@@ -571,6 +607,12 @@ func runC19(a *runArgs) error {
 				keys := make([]int, nk)
 				for i := range keys {
 					keys[i] = r.Intn(n)
+				}
+				// collision buckets: distinct identity classes with one hash value
+				if len(collide) > 0 && r.Intn(3) != 0 {
+					g := collide[r.Intn(len(collide))]
+					keys = append(keys[:1+r.Intn(3)], g...)
+					nk = len(keys)
 				}
 				// bias: add members of identity classes
 				for i := 0; i < n && len(keys) < nk+6; i++ {
